@@ -1,4 +1,5 @@
-(* C36: the faithful model (fx = false) refutes mutual exclusion -- evaluation lemmas. *)
+(* C36, HISTORICAL: the model of try_cleanup BEFORE /repo d1af26b (fx = false, removal by key)
+   refutes mutual exclusion -- evaluation lemmas; the same schedule on the code as it is now. *)
 From Coq Require Import ZArith List Bool Arith.
 From TV Require Import Lib.Interleave Model.PageLocks.
 Import ListNotations.
